@@ -153,3 +153,19 @@ Proof.
   - cbn in Er. inversion Er; subst. apply B. reflexivity.
   - apply (IH st1 st' W1 ltac:(discriminate) Er).
 Qed.
+
+(* ------------------------------------------------------------------ sanity of the state machine against the encoder (boundary code points) *)
+
+Definition boundary_points : str := [0; 10; 127; 128; 2047; 2048; 55295; 57344; 65279; 65535; 65536; 128512; 1114111]%N.
+
+Example utf8_roundtrip_boundaries :
+  decode_whole (utf8_encode boundary_points) = Some boundary_points /\
+  decode_seq (S (length (utf8_encode boundary_points))) (utf8_encode boundary_points) = Some boundary_points /\
+  forallb is_scalar boundary_points = true.
+Proof. repeat split; vm_compute; reflexivity. Qed.
+
+(* overlong forms, surrogates, code points above U+10FFFF, stray continuation bytes and truncated sequences are rejected *)
+Example utf8_rejects :
+  map decode_whole [[192; 175]; [224; 128; 175]; [240; 128; 128; 175]; [237; 160; 128]; [244; 144; 128; 128]; [245; 128; 128; 128];
+                    [128]; [195]; [226; 130]; [240; 159; 152]; [195; 40]]%N = repeat None 11.
+Proof. vm_compute. reflexivity. Qed.
